@@ -17,6 +17,9 @@ func init() {
 		ruleS3(c, "C04.S3")
 		ruleS4(c, "C04.S4")
 		ruleS5(c, "C04.S5")
+		ruleR6(c, "C04.S1c")
+		ruleW1(c, "C04.S1d")
+		ruleT3(c, "C04.S6")
 	}
 }
 
